@@ -190,9 +190,16 @@ pub struct PanicInfo {
 
 thread_local! {
     static LAST_PANIC: RefCell<Option<PanicInfo>> = const { RefCell::new(None) };
+    /// > 0 while inside an explicit `lib()` fence: the panic is an expected outcome and needs no
+    /// classification (and no backtrace)
+    static FENCE_DEPTH: std::cell::Cell<u32> = const { std::cell::Cell::new(0) };
 }
 
 fn classify_location(file: &str) -> Option<bool> {
+    if file.ends_with("advkind.rs") {
+        // the second backend is called by the library (and by the C07 self-check): decide by the caller
+        return None;
+    }
     if file.starts_with("/repo/") || file.contains("open-hypergraphs") {
         Some(true)
     } else if file.starts_with("src/") || file.contains("/verif/") || file.contains("harness") {
@@ -215,18 +222,35 @@ pub fn install_panic_hook() {
             Some(l) => (format!("{}:{}", l.file(), l.line()), l.file().to_string()),
             None => ("<unknown>".to_string(), String::new()),
         };
-        let in_lib = match classify_location(&file) {
+        let fenced = FENCE_DEPTH.with(|d| d.get() > 0);
+        let in_lib = match if fenced { Some(true) } else { classify_location(&file) } {
             Some(b) => b,
             None => {
                 // a panic raised inside std/core: decide by the innermost crate frame
+                // innermost frame that belongs to the library or to the harness proper (frames of
+                // the harness's array backend are skipped: it only does what its caller asked)
                 let bt = std::backtrace::Backtrace::force_capture().to_string();
-                let lib = bt.find("open_hypergraphs::");
-                let me = bt.find("ohv::");
-                match (lib, me) {
-                    (Some(a), Some(b)) => a < b,
-                    (Some(_), None) => true,
-                    _ => false,
+                if std::env::var("OHV_DEBUG_BT").is_ok() {
+                    eprintln!("{bt}");
                 }
+                let mut verdict = false;
+                // frames are printed innermost first, each with an "at <file>:<line>" line
+                for line in bt.lines() {
+                    let l = line.trim_start();
+                    let Some(path) = l.strip_prefix("at ") else { continue };
+                    if path.starts_with("/rustc/") || path.contains("src/advkind.rs") || path.contains("src/engine.rs") {
+                        continue;
+                    }
+                    if path.starts_with("/repo/") || path.contains("open-hypergraphs") {
+                        verdict = true;
+                        break;
+                    }
+                    if path.contains("harness/src/") || path.starts_with("src/") || path.starts_with("./src/") {
+                        verdict = false;
+                        break;
+                    }
+                }
+                verdict
             }
         };
         LAST_PANIC.with(|p| {
@@ -251,7 +275,10 @@ fn take_panic() -> PanicInfo {
 
 /// Fence around a library call whose panic is an *expected or tolerated* outcome.
 pub fn lib<T>(f: impl FnOnce() -> T) -> Result<T, PanicInfo> {
-    match catch_unwind(AssertUnwindSafe(f)) {
+    FENCE_DEPTH.with(|d| d.set(d.get() + 1));
+    let r = catch_unwind(AssertUnwindSafe(f));
+    FENCE_DEPTH.with(|d| d.set(d.get() - 1));
+    match r {
         Ok(v) => Ok(v),
         Err(_) => Err(take_panic()),
     }
